@@ -7,6 +7,7 @@ import QuiverModel.Lemmas.Types.Rank
 import QuiverModel.Lemmas.Types.Overlap
 import QuiverModel.Lemmas.Types.Extend
 import QuiverModel.Lemmas.Types.Meet
+import QuiverModel.Lemmas.Types.Diff
 /-
 C09 — Assignability implies containment; overlap detection is complete; narrowing never drops a
 value that can occur.
@@ -267,15 +268,52 @@ example : ∃ T' r, intersect Variant.current 16 8 tF15 2 3 = some (T', r) ∧ i
     exact ⟨p.1, p.2, rfl, intersect_keeps Variant.current tF15 p.1 16 8 2 3 p.2 ⟨3, by decide⟩ ⟨3, by decide⟩ h vF15
       (by decide) ⟨4, by decide⟩ ⟨4, by decide⟩⟩
 
-/-- narrowing by subtraction never drops a value that can occur — statement on first-order types
-(NOT proved here: it needs, on top of the table-extension invariants used for `intersect_keeps`,
-that `contains_cycle` is `false` on first-order types and that a `true` overlap verdict on two tuple
-types forces equal labels; the harness evaluates it on the implementation's result for every sampled
-pair — no first-order failure in any run — and on recursive types it is false, see notes/C09.md R3) -/
-def ComplementKeepsStatement : Prop :=
-  ∀ (T T' : Table) (rf fuel a b r : Nat), Ordered T → FO T a → FO T b →
-    complement Variant.current rf fuel T a b = some (T', r) →
-    ∀ v, v.wf = true → inh T [] a v → ¬ inh T [] b v → inh T' [] r v
+/-- **Subtraction never drops a value** (`compute_complement`, first-order operands; any table, any
+fuels; the code as it is now, which compares field labels — fix e0ad7de): a well-labelled value of
+the original type that is NOT a value of the narrowed type is a value of the result, read in the
+table the function returns. The `is_compatible(a, b) ⇒ []` shortcut is justified by the soundness
+theorem, `contains_cycle` finds nothing in a first-order type (`cyclicPair_fo`), and the structural
+tuple difference `[A] ∖ [b] = ⋃ᵢ [A₀, …, Aᵢ∖bᵢ, …]` by `subtractFields_ok`. -/
+theorem complement_keeps (T T' : Table) (rf fuel a b r : Nat) (ha : FO T a) (hb : FO T b)
+    (h : complement Variant.current rf fuel T a b = some (T', r)) :
+    ∀ v, v.wf = true → inh T [] a v → ¬ inh T [] b v → inh T' [] r v :=
+  (complement_ok Variant.current rfl rf fuel T a b ha hb T' r h).2.2
+
+theorem complement_extends (T T' : Table) (rf fuel a b r : Nat) (ha : FO T a) (hb : FO T b)
+    (h : complement Variant.current rf fuel T a b = some (T', r)) : Table.Sub T T' ∧ FO T' r :=
+  ⟨(complement_ok Variant.current rfl rf fuel T a b ha hb T' r h).1,
+   (complement_ok Variant.current rfl rf fuel T a b ha hb T' r h).2.1⟩
+
+/-- `T2[0x00, 0x00]` is not in `T2[int,int] | T2[int,bin]`, whatever the fuel -/
+theorem F12_value_not_right : ¬ inh tF12 [] 6 vF12 := by
+  intro hv
+  obtain ⟨i, hi, hiv⟩ := (inh_union (T := tF12) (t := 6) (ids := [4, 5]) rfl).mp hv
+  simp only [List.mem_cons, List.not_mem_nil, or_false] at hi
+  rcases hi with rfl | rfl
+  · obtain ⟨_, fs, hv', _, hf⟩ := (inh_tuple (T := tF12) (t := 4) (id := 3)
+      (info := ⟨some 2, [(none, 0), (none, 0)]⟩) rfl rfl).mp hiv
+    simp only [vF12, V.tup.injEq] at hv'
+    obtain ⟨_, rfl⟩ := hv'
+    cases hf with
+    | cons _ h2 _ =>
+      obtain ⟨z, hz⟩ := (inh_integer (T := tF12) (t := 0) rfl).mp h2
+      cases hz
+  · obtain ⟨_, fs, hv', _, hf⟩ := (inh_tuple (T := tF12) (t := 5) (id := 4)
+      (info := ⟨some 2, [(none, 0), (none, 1)]⟩) rfl rfl).mp hiv
+    simp only [vF12, V.tup.injEq] at hv'
+    obtain ⟨_, rfl⟩ := hv'
+    cases hf with
+    | cons _ h2 _ =>
+      obtain ⟨z, hz⟩ := (inh_integer (T := tF12) (t := 0) rfl).mp h2
+      cases hz
+
+/-- non-trivial instance: `T2[int|bin, bin] ∖ (T2[int,int] | T2[int,bin])` keeps `T2[0x00, 0x00]` -/
+example : ∃ T' r, complement Variant.current 16 8 tF12 3 6 = some (T', r) ∧ inh T' [] r vF12 := by
+  cases h : complement Variant.current 16 8 tF12 3 6 with
+  | none => exact absurd h (by decide)
+  | some p =>
+    exact ⟨p.1, p.2, rfl, complement_keeps tF12 p.1 16 8 3 6 p.2 ⟨4, by decide⟩ ⟨4, by decide⟩ h vF12
+      (by decide) ⟨12, by decide⟩ F12_value_not_right⟩
 
 /-- **`union_type_ids` is sound and complete** (first-order arguments): the id it returns, read in
 the table it returns, has exactly the values of the arguments — flattening one level of unions,
